@@ -302,6 +302,8 @@ fn build_files(scn: &Scn, streams: &[(u8, Vec<u8>)], lay: &Layout) -> (Vec<Midas
         queues.push((*id, q));
     }
     let widths = [BankWidth::B16, BankWidth::B32, BankWidth::B32A];
+    // trigger masks and event timestamps are irrelevant to the property: varied
+    const MASKS: [u16; 6] = [0, 0, 1, 4, 0xFFFF, 0x8000];
     let mut events: Vec<Event> = Vec::new();
     let mut serial = 0u32;
     let noise = |r: &mut Rng, events: &mut Vec<Event>, serial: &mut u32| {
@@ -312,7 +314,7 @@ fn build_files(scn: &Scn, streams: &[(u8, Vec<u8>)], lay: &Layout) -> (Vec<Midas
             banks.push(Bank { name: "CBF2".into(), data: vec![0xAB; 8] });
         }
         *serial += 1;
-        events.push(Event { id, mask: 0, serial: *serial, timestamp: 0, width: *r.pick(&widths), banks });
+        events.push(Event { id, mask: MASKS[(*serial % 6) as usize], serial: *serial, timestamp: 1_600_000_000 + *serial / 7, width: *r.pick(&widths), banks });
     };
     while queues.iter().any(|q| !q.1.is_empty()) {
         if r.chance(1, 3) {
@@ -330,7 +332,7 @@ fn build_files(scn: &Scn, streams: &[(u8, Vec<u8>)], lay: &Layout) -> (Vec<Midas
             }
         }
         serial += 1;
-        events.push(Event { id: 4, mask: 0, serial, timestamp: 0, width: *r.pick(&widths), banks });
+        events.push(Event { id: 4, mask: MASKS[(serial % 6) as usize], serial, timestamp: 1_600_000_000 + serial / 7, width: *r.pick(&widths), banks });
     }
     if r.chance(1, 2) {
         noise(&mut r, &mut events, &mut serial);
@@ -574,7 +576,28 @@ impl Check for C20Check {
                     stats.probe("big_endian_file");
                 }
             }
-            let args: Vec<_> = argv.iter().map(|&k| paths[k].clone()).collect();
+            // how the operator names the files: absolute, relative, "./", through a dotted
+            // directory and "..", through a symbolic link (decided by the layout's argv seed)
+            let form = (lay.argv_seed >> 9) % 6;
+            let _ = std::fs::create_dir_all(scratch.dir.join("sub.dir.mid"));
+            let abs_paths = paths.clone();
+            let args: Vec<std::path::PathBuf> = argv
+                .iter()
+                .map(|&k| {
+                    let name = paths[k].file_name().unwrap().to_string_lossy().to_string();
+                    match form {
+                        0 | 1 => paths[k].clone(),
+                        2 => name.into(),
+                        3 => format!("./{name}").into(),
+                        4 => format!("sub.dir.mid/../{name}").into(),
+                        _ => {
+                            let _ = std::os::unix::fs::symlink(&paths[k], scratch.dir.join(format!("ln_{name}")));
+                            format!("ln_{name}").into()
+                        }
+                    }
+                })
+                .collect();
+            stats.probe(["argv_paths_absolute", "argv_paths_absolute", "argv_paths_relative", "argv_paths_dot_slash", "argv_paths_through_dotted_dir_and_dotdot", "argv_paths_symlink"][form as usize]);
             let mut hl = H64::new();
             hl.u64(lay.seed).u64(lay.argv_seed).u64(lay.hash_seed).u64(lay.n_files as u64).u64(lay.max_bank as u64);
             stats.schedule(hl.finish());
@@ -596,7 +619,7 @@ impl Check for C20Check {
                         if w {
                             (true, n)
                         } else {
-                            let total: u64 = args.iter().map(|p| std::fs::metadata(p).map(|m| m.len()).unwrap_or(0)).sum();
+                            let total: u64 = abs_paths.iter().map(|p| std::fs::metadata(p).map(|m| m.len()).unwrap_or(0)).sum();
                             (false, total * n.min(1000) / 1000)
                         }
                     }),
